@@ -138,7 +138,34 @@ func IsLib(path string) bool {
 			return true
 		}
 	}
-	return false
+	return IsInternal(path)
+}
+
+// IsInternal: an internal package of the module - code the library packages share, not importable from outside:
+// part of the library for every rule.
+func IsInternal(path string) bool {
+	return IsModule(path) && (strings.Contains(path, "/internal/") || strings.HasSuffix(path, "/internal"))
+}
+
+// IsHelper: fn is not part of the module's API: unexported, or declared in an internal package.
+func IsHelper(fn types.Object) bool {
+	if fn == nil {
+		return false
+	}
+	return !fn.Exported() || (fn.Pkg() != nil && IsInternal(fn.Pkg().Path()))
+}
+
+// LibRels: the module-relative paths of the library packages: the six named ones and the module's internal packages.
+func (p *Program) LibRels() []string {
+	out := append([]string{}, LibPkgs...)
+	var extra []string
+	for path := range p.ByPath {
+		if IsInternal(path) {
+			extra = append(extra, strings.TrimPrefix(path, ModPath+"/"))
+		}
+	}
+	sort.Strings(extra)
+	return append(out, extra...)
 }
 
 func (p *Program) Decl(fn *types.Func) *ast.FuncDecl { return p.decls[fn] }
